@@ -5,6 +5,7 @@ package c09
 import (
 	"errors"
 	"fmt"
+	"os"
 	"strings"
 
 	"github.com/zerx-lab/wordZero/pkg/document"
@@ -1046,7 +1047,21 @@ func run(c Case) *kit.Result {
 		}
 	}
 	x.t = t
+	sizeLabels(res, c.Rows, c.Cols)
 	return x.history(c)
+}
+
+// sizeLabels: the start sizes past the single digits.
+func sizeLabels(res *kit.Result, rows, cols int) {
+	if cols >= 10 {
+		res.Label("start:>=10-columns")
+	}
+	if cols > 32 {
+		res.Label("start:>32-columns")
+	}
+	if rows >= 10 {
+		res.Label("start:>=10-rows")
+	}
 }
 
 // startOpened reads the start table from the package that c.Open describes. It returns false when the case ends here.
@@ -1083,10 +1098,17 @@ func (x *exec) startOpened(c Case) bool {
 	if sh.merged {
 		res.Label("start:opened-merged")
 	}
+	if sh.maxSpan >= 10 {
+		res.Label("start:opened-with-gridSpan>=10")
+	}
+	sizeLabels(res, sh.R, sh.G)
 	for _, row := range c.Open.Rows {
 		for _, cell := range row {
 			if cell.Nested > 0 {
 				res.Label("start:opened-nested")
+			}
+			if cell.Span == 1 {
+				res.Label("start:opened-with-explicit-gridSpan-1")
 			}
 		}
 	}
@@ -1118,6 +1140,15 @@ func (x *exec) history(c Case) *kit.Result {
 			x.everMerged = true
 		}
 		x.step(op)
+		if debugTrace {
+			fmt.Fprintf(os.Stderr, "TRACE op %d %s -> %s | %s\n", i, x.desc, x.status, render(x.t))
+		}
+		if x.sh.maxSpan >= 10 {
+			res.Label("history:call-on-a-state-with-a-cell-spanning>=10")
+			if isStructural[op.K] && x.status == "ok" {
+				res.Label("history:structural-edit-on-a-state-with-a-cell-spanning>=10")
+			}
+		}
 		if len(x.preViol) > 0 && isStructural[op.K] {
 			switch x.status {
 			case "err":
